@@ -3,9 +3,10 @@
 int id;
 void set_id(int i) { id = i; set_heart_beat(1); }
 void off() { set_heart_beat(0); L("hboff " + ME); }
+void on() { set_heart_beat(1); L("hbon " + id); }
 void heart_beat() {
   L("hb " + id);
   TP("heart_beat", id);
-  if (!id) "/c09/rs"->touch();
+  if (!id) PLAN->touch_rs();
   if (id == 1 && PLAN->query_st() == 2) set_heart_beat(0);   // self-test only: a broken mudlib the model does not know about
 }
